@@ -23,6 +23,10 @@ CHECKS.update({
  'C08': dict(level='fault_enumeration', technique='exhaustive single-fault (thorough: double-fault) position enumeration over the real DB on a fault-injecting storage under the deterministic scheduler, subset-explanation oracle before and after reopen',
    text='Per history one run per fault plan: k-th operation of each (kind,file type) x {fail once, fail 3x, half-written, performed-but-reported-failed, flipped read}; contents while running and after clean close + fault-free reopen must be explained by all acknowledged writes plus a subset of failed ones; reopen must succeed unless the fault itself tore durable bytes.',
    note='Faults begin after the initial Open; virtual-time settling; known finding D11 (manifest edit durable but reported failed) is matched by signature.', design='4/C08'),
+
+ 'C09': dict(level='exploration', technique='fault-plan enumeration plus stateless DFS over schedules (deviation bounding) on the instrumented real code with exact deadlock / virtual-time hang verdicts from the cooperative scheduler',
+   text='(a) every single-fault plan of the C08 engine is followed by a probe suite (Put, Get, iterator, transactions, CompactRange, Close); every call must return. (b) clients racing Close, SetReadOnly, transactions and CompactRange are explored under all schedules within the deviation bound. The scheduler owns every blocking primitive, so "never returns" is decided exactly: no goroutine enabled and no timer pending (deadlock) or the virtual clock passing one hour with a client call outstanding (hang).',
+   note='Virtual time (timers fire at quiescence); bounded schedules; faults start after the initial Open.', design='4/C09'),
 })
 NA = {}
 
